@@ -35,9 +35,13 @@ def report (c : Cfg) (m : ModelSt) (s : Settings) : String :=
   let a := applyTo c m s
   s!"consts={showStore s.consts} pts={showStore s.pts} rs={showRs s.rs} meqs={showStore a.eqs} mpts={showStore a.pts} mrs={showRs a.rs}"
 
+structure DSt where
+  c : Cfg
+  mrs : RunSpec
+  m : MState
+
 def stepLine (c : Cfg) (line : String) : Cfg × String :=
   match line.trimAscii.toString.splitOn " " with
-  | ["cfg", a, b] => ({ runspecStartApplied := a == "1", fileRunspecsKept := b == "1" }, "ok")
   | ["dict", mrs, mpts, bc, bp, cs, ps, a, o, d] =>
       match parseRs mrs, parseStore mpts, parseStore bc, parseStore bp, mkDict cs ps a o d with
       | some mrs, some mpts, some bc, some bp, some dd =>
@@ -48,6 +52,11 @@ def stepLine (c : Cfg) (line : String) : Cfg × String :=
       | some mrs, some mpts, some fs, some dd =>
           (c, report c { eqs := [], pts := mpts, rs := mrs } (resolveFile c mrs fs dd))
       | _, _, _, _ => (c, "bad-op")
+  | ["fsettings", mrs, mpts, files, cs0, ps0, a0, o0, d0, cs, ps, a, o, d] =>
+      match parseRs mrs, parseStore mpts, parseFiles files, mkDict cs0 ps0 a0 o0 d0, mkDict cs ps a o d with
+      | some mrs, some mpts, some fs, some d0, some dd =>
+          (c, report c { eqs := [], pts := mpts, rs := mrs } (resolveSettings (resolveFile c mrs fs d0) dd))
+      | _, _, _, _, _ => (c, "bad-op")
   | ["settings", mrs, mpts, bc, bp, cs0, ps0, a0, o0, d0, cs, ps, a, o, d] =>
       match parseRs mrs, parseStore mpts, parseStore bc, parseStore bp, mkDict cs0 ps0 a0 o0 d0, mkDict cs ps a o d with
       | some mrs, some mpts, some bc, some bp, some d0, some dd =>
@@ -55,11 +64,41 @@ def stepLine (c : Cfg) (line : String) : Cfg × String :=
       | _, _, _, _, _, _ => (c, "bad-op")
   | _ => (c, "bad-op")
 
-partial def loop (h : IO.FS.Stream) (c : Cfg) : IO Unit := do
+/-- the manager machine: `mgr` starts a manager, `madd` / `mconf` are `MOp.add` / `MOp.configure`, `mview i`
+reads scenario i through the aliases, `mbase` reads the manager's base dictionaries -/
+def stepM (st : DSt) (line : String) : DSt × String :=
+  match line.trimAscii.toString.splitOn " " with
+  | ["cfg", a, b, o] =>
+      ({ st with c := { runspecStartApplied := a == "1", fileRunspecsKept := b == "1", scenarioOwnsDicts := o == "1" } }, "ok")
+  | ["mgr", mrs, bc, bp] =>
+      match parseRs mrs, parseStore bc, parseStore bp with
+      | some mrs, some bc, some bp => ({ st with mrs := mrs, m := MState.init bc bp }, "ok")
+      | _, _, _ => (st, "bad-op")
+  | ["madd", i, cs, ps, a, o, d] =>
+      match i.toNat?, mkDict cs ps a o d with
+      | some i, some dd => ({ st with m := mstep st.c st.mrs st.m (.add i dd) }, "ok")
+      | _, _ => (st, "bad-op")
+  | ["mconf", i, cs, ps, a, o, d] =>
+      match i.toNat?, mkDict cs ps a o d with
+      | some i, some dd => ({ st with m := mstep st.c st.mrs st.m (.configure i dd) }, "ok")
+      | _, _ => (st, "bad-op")
+  | ["mview", i] =>
+      match i.toNat? with
+      | some i =>
+          match mview st.m i with
+          | some s => (st, s!"consts={showStore s.consts} pts={showStore s.pts} rs={showRs s.rs}")
+          | none => (st, "none")
+      | none => (st, "bad-op")
+  | ["mbase"] => (st, s!"bc={showStore st.m.bc} bp={showStore st.m.bp}")
+  | _ => let (_, out) := stepLine st.c line; (st, out)
+
+partial def loop (h : IO.FS.Stream) (st : DSt) : IO Unit := do
   let line ← h.getLine
   if line.isEmpty then return ()
-  let (c', out) := stepLine c line
+  let (st', out) := stepM st line
   IO.println out
-  loop h c'
+  loop h st'
 
-def main : IO Unit := do loop (← IO.getStdin) { runspecStartApplied := true, fileRunspecsKept := true }
+def main : IO Unit := do
+  loop (← IO.getStdin) { c := { runspecStartApplied := true, fileRunspecsKept := true, scenarioOwnsDicts := true },
+                         mrs := ⟨0, 0, 0⟩, m := MState.init [] [] }
